@@ -371,7 +371,7 @@ func (run *checkRun) report(verbose bool) int {
 			nProved++
 			continue
 		}
-		viols = append(viols, violation{Obligation: o.Name, Unit: o.Func, Status: o.Status, Reason: o.Raw, Text: o.Text, Where: o.Where})
+		viols = append(viols, violation{Obligation: o.Name, Unit: o.Func, Status: o.Status, Reason: o.Raw, Model: o.Model, Text: o.Text, Where: o.Where})
 	}
 	for _, name := range sortedKeysKF(run.known) {
 		if knownSeen[name] {
@@ -436,7 +436,7 @@ func (run *checkRun) writeReplay(v violation) replayOutcome {
 		os.WriteFile(sp, []byte("(set-option :produce-models true)\n(set-logic ALL)\n"+v.Script+"(check-sat)\n(get-model)\n"), 0o644)
 		rec["query"] = sp
 	}
-	if v.Model != "" {
+	if v.Model != "" || run.replayerFor(v.Obligation) != "" {
 		if rp := run.replayerFor(v.Obligation); rp != "" {
 			res := runReplayer(run.w, rp, v)
 			rec["replay"] = res
